@@ -71,7 +71,7 @@ fn mindustry_with(args: &[&str], default_port: bool) -> String {
         return "bad-case".into();
     };
     let port = if default_port { None } else { Some(port) };
-    run_q(script, || mindustry::query(&IP, port, &timeout(r)), show_mindustry)
+    run_q(script, || mindustry::query(&crate::net::ip(), port, &timeout(r)), show_mindustry)
 }
 
 fn entry_mindustry(args: &[&str]) -> String { mindustry_with(args, false) }
@@ -109,7 +109,7 @@ fn savage2_with(args: &[&str], default_port: bool) -> String {
         return "bad-case".into();
     };
     let port = if default_port { None } else { Some(port) };
-    run_q(script, || savage2::query_with_timeout(&IP, port, timeout(r)), show_savage2)
+    run_q(script, || savage2::query_with_timeout(&crate::net::ip(), port, timeout(r)), show_savage2)
 }
 
 fn entry_savage2(args: &[&str]) -> String { savage2_with(args, false) }
@@ -162,7 +162,7 @@ fn ffow_with(args: &[&str], default_port: bool) -> String {
         return "bad-case".into();
     };
     let port = if default_port { None } else { Some(port) };
-    run_q(script, || ffow::query_with_timeout(&IP, port, timeout(r)), show_ffow)
+    run_q(script, || ffow::query_with_timeout(&crate::net::ip(), port, timeout(r)), show_ffow)
 }
 
 fn entry_ffow(args: &[&str]) -> String { ffow_with(args, false) }
@@ -224,7 +224,7 @@ fn theship_with(args: &[&str], default_port: bool) -> String {
         return "bad-case".into();
     };
     let port = if default_port { None } else { Some(port) };
-    run_q(script, || theship::query_with_timeout(&IP, port, timeout(r)), show_theship)
+    run_q(script, || theship::query_with_timeout(&crate::net::ip(), port, timeout(r)), show_theship)
 }
 
 fn entry_theship(args: &[&str]) -> String { theship_with(args, false) }
@@ -274,7 +274,7 @@ fn battalion_with(args: &[&str], default_port: bool) -> String {
         return "bad-case".into();
     };
     let port = if default_port { None } else { Some(port) };
-    run_q(script, || battalion1944::query(&IP, port), show_game_response)
+    run_q(script, || battalion1944::query(&crate::net::ip(), port), show_game_response)
 }
 
 fn entry_battalion(args: &[&str]) -> String { battalion_with(args, false) }
